@@ -8,26 +8,26 @@ NOTE = ("Trusted: go/types + go/ssa (x/tools v0.29.0), VTA call-graph soundness 
         "one-DB-per-transaction lock identity. The check decides the named structural clauses (necessary conditions), not the whole behaviour; see DESIGN.md §4 for what is not decided.")
 
 CLAIMED = {
- "C02": ("reader registration / private meta copy / mapping pin established atomically under metalock and released on every exit (must/may locksets), remap and unmap only under the exclusive mmaplock, mapping-description fields written only by map/unmap, copy-on-write targets never derive from the mapping, meta write and pending-page release inside the metalock critical section, dirty-page cache filled only from the allocator", "4 C02, 8.2"),
- "C03": ("writer lock taken only in beginRWTx and released on every exit of Commit/Rollback/rollback for an open write transaction (interprocedural locksets specialised per transaction kind), managed-transaction discipline of Update/View, ownership of DB.rwtx, acyclic lock order rwlock<metalock<mmaplock<statlock with batchMu/statlock as leaves, guarded-by table for DB.stats/DB.batch/lifecycle fields, nothing can fail after the meta write and handlers run after close, every abort of a write transaction undoes its recorded frees (freelist.Rollback before close); the lazily loaded free list is published only through freelistLoad.Do (assigned only in the Once body, not touched by loadFreelist before Do returned, used by tx.check only after loadFreelist())", "4 C03, 8.2"),
- "C09": ("free-set entry chain (VTA+CHA), backend agreement (storage role only on the backends, policy on *shared, newFreelist total, Allocate bookkeeping), 0xFFFF count convention tabulated on writer/reader/estimator, Free's guards, Init re-assigns every storage field of its backend; Free records every id of the run p.Id()..p.Id()+p.Overflow() (loop tabulated)", "4 C09"),
+ "C02": ("reader registration / private meta copy / mapping pin established atomically under metalock and released on every exit (must/may locksets), remap and unmap only under the exclusive mmaplock, mapping-description fields written only by map/unmap, copy-on-write targets never derive from the mapping, meta write and pending-page release inside the metalock critical section, dirty-page cache filled only from the allocator; free-set entry chain and write targets re-evaluated (pages an open reader references never become allocatable; bytes go only where allocator-provided ids say)", "4 C02, 8.2"),
+ "C03": ("writer lock taken only in beginRWTx and released on every exit of Commit/Rollback/rollback for an open write transaction (interprocedural locksets specialised per transaction kind), managed-transaction discipline of Update/View, ownership of DB.rwtx, acyclic lock order rwlock<metalock<mmaplock<statlock with batchMu/statlock as leaves, guarded-by table for DB.stats/DB.batch/lifecycle fields, nothing can fail after the meta write and handlers run after close, every abort of a write transaction undoes its recorded frees (freelist.Rollback before close); the lazily loaded free list is published only through freelistLoad.Do (assigned only in the Once body, not touched by loadFreelist before Do returned, used by tx.check only after loadFreelist()); physical rollback shape re-evaluated (a failed commit restores the allocator before the lock is released)", "4 C03, 8.2"),
+ "C09": ("free-set entry chain (VTA+CHA), backend agreement (storage role only on the backends, policy on *shared, newFreelist total, Allocate bookkeeping), 0xFFFF count convention tabulated on writer/reader/estimator, Free's guards, Init re-assigns every storage field of its backend; Free records every id of the run p.Id()..p.Id()+p.Overflow() (loop tabulated); abort-undoes-frees re-evaluated (every abort path calls freelist.Rollback before the lock is released)", "4 C09"),
  "C10": ("release step at every writer begin under metalock, every exit of a read transaction reaches RemoveReadonlyTXID, same registration key, ReleasePendingPages tabulated for 0/1/2 readers, order-dependent reads of the reader list preceded by a sort, counts published before the writer lock is released, pending->free only through the release path which runs only at writer begin; db.allocate asks the free list first and returns an offered run without growing the file (tabulated)", "4 C10, 8.2"),
- "C11": ("checksum covers every byte before it on all gc architectures, Validate truth table (8 rows), validate-before-use in page-size probing and Open, decision tables of db.mmap / db.meta() / getPageSize, every rejecting exit of Open closes (with db.opened already set, so close is not a no-op) and returns an error; free-set entry chain re-evaluated (the older meta's state survives until the next writer begins, so the fallback presents exactly that state)", "4 C11, 8.2"),
- "C12": ("version-2 layout table of the 5 mapped structs on all gc architectures, format constants, checksum algorithm and coverage, writer/reader field pairing, 0xFFFF convention, initial 4-page layout evaluated from init, checksum-after-mutation; an inline bucket owns no pages (inlineable() tabulated); a page carries exactly one type flag (type predicates tabulated); accessor integrity: each of the 50 getters/setters of the mapped structs reads/writes exactly its own field", "4 C12"),
+ "C11": ("checksum covers every byte before it on all gc architectures, Validate truth table (8 rows), validate-before-use in page-size probing and Open, decision tables of db.mmap / db.meta() / getPageSize, every rejecting exit of Open closes (with db.opened already set, so close is not a no-op) and returns an error; free-set entry chain re-evaluated (the older meta's state survives until the next writer begins, so the fallback presents exactly that state); checksum-after-mutation and meta slot alternation re-evaluated (the other meta page is valid and is the previous state)", "4 C11, 8.2"),
+ "C12": ("version-2 layout table of the 5 mapped structs on all gc architectures, format constants, checksum algorithm and coverage, writer/reader field pairing, 0xFFFF convention, initial 4-page layout evaluated from init, checksum-after-mutation; an inline bucket owns no pages (inlineable() tabulated); a page carries exactly one type flag (type predicates tabulated); accessor integrity: each of the 50 getters/setters of the mapped structs reads/writes exactly its own field; page capacity re-evaluated (every element lies inside its page run)", "4 C12"),
  "C13": ("NARROW claim — the structural skeleton that makes the free list independent of how it was obtained: freepages() scans exactly [2, high-water mark) minus what the walk from the root reached; loadFreelist chooses persisted-vs-rebuilt by hasSyncedFreelist, once, with the backend from db.FreelistType; Open flushes a missing free list exactly when NoFreelistSync is off; re-evaluated: both NoFreelistSync arms redefine the freelist pointer, backend agreement, Init forgets previous content, rollback reload by the same predicate, syncs skipped only under NoSync. Equality of contents / API results across option assignments is NOT decided; the lazily loaded free list is published only through freelistLoad.Do (assigned only in the Once body, not touched by loadFreelist before Do returned, used by tx.check only after loadFreelist()); for an existing file the page size in force at the first mapping is the one read from the file (Options.PageSize only seeds new files)", "5 and 8.2"),
  "C14": ("backup cut from tx.meta (never db.meta()), both meta pages checksummed after their last change with page 0 keeping the higher txid, data window [2*pageSize, tx.Size()) and byte accounting on the success path and on each failing write (WriteTo evaluated symbolically), CopyFile closes the destination and returns the close error; free-set entry chain re-evaluated (the snapshot's pages stay out of the free set while the backup reader is registered)", "4 C14"),
  "C15": ("SetSequence(seq) after every CreateBucket in both arms with seq = Sequence() of the reported bucket, one captured transaction cell re-assigned after an intermediate commit, source flows only into walk -> View and is opened ReadOnly by the CLI, callback/walk errors abort before the final commit; a parent with an unopened paged sub-bucket is never written inline (inlineable() tabulated with an empty per-transaction bucket cache)", "4 C15"),
- "C18": ("the size handed to file.Truncate is compared with / clamped to db.MaxSize on every path (windows: in db.mmap before mapping), size-limit error raised before remap and before the high-water mark moves and propagated unchanged, DB.MaxSize has Options.MaxSize as its only source, a size-limit failure of Commit takes the physical rollback; db.allocate's size-limit decision tabulated (refusal before the high-water mark moves, ErrMaxSizeReached, requests that fit are granted)", "4 C18, 8.2"),
- "C20": ("every surgery writer call takes the --output path and is dominated by a successful CopyFile(source, output), the source path is only read, CopyFile refuses an existing destination, raw page writers confined to surgery, rewritten metas re-checksummed and both metas cleared, revert copies the other meta (tabulated) and retargets the page id before writing; every writer of meta pages in the module (commit, init, backup, surgery) checksums after the last change, so the page revert copies is valid", "4 C20"),
- "C04": ("in every exported mutator all effect sites are unreachable on a closed or read-only transaction and no error return follows an effect, the pre-effect validation of each mutator has not shrunk (frozen table), bucket-cache coherence (a cached child is freed or re-homed, never dropped), remap dereferences the writer before unmapping, key-order predicates tabulated over bytes.Compare, bucket header / sequence ownership; a user rollback undoes the page frees of DeleteBucket (freelist.Rollback before close on the abort path); keys handed to node.put never alias a caller-supplied slice", "4 C04"),
+ "C18": ("the size handed to file.Truncate is compared with / clamped to db.MaxSize on every path (windows: in db.mmap before mapping), size-limit error raised before remap and before the high-water mark moves and propagated unchanged, DB.MaxSize has Options.MaxSize as its only source, a size-limit failure of Commit takes the physical rollback; db.allocate's size-limit decision tabulated (refusal before the high-water mark moves, ErrMaxSizeReached, requests that fit are granted); writer-lock pairing re-evaluated (a size-limit failure leaves the database writable and closable)", "4 C18, 8.2"),
+ "C20": ("every surgery writer call takes the --output path and is dominated by a successful CopyFile(source, output), the source path is only read, CopyFile refuses an existing destination, raw page writers confined to surgery, rewritten metas re-checksummed and both metas cleared, revert copies the other meta (tabulated) and retargets the page id before writing; every writer of meta pages in the module (commit, init, backup, surgery) checksums after the last change, so the page revert copies is valid; meta slot alternation re-evaluated (the page revert copies is the previous commit)", "4 C20"),
+ "C04": ("in every exported mutator all effect sites are unreachable on a closed or read-only transaction and no error return follows an effect, the pre-effect validation of each mutator has not shrunk (frozen table), bucket-cache coherence (a cached child is freed or re-homed, never dropped), remap dereferences the writer before unmapping, key-order predicates tabulated over bytes.Compare, bucket header / sequence ownership; a user rollback undoes the page frees of DeleteBucket (freelist.Rollback before close on the abort path); keys handed to node.put never alias a caller-supplied slice; nested buckets reported with a nil value by Get and the cursor (value masking re-evaluated)", "4 C04"),
  "C05": ("after every raw descent no return precedes an emptiness test of the leaf (first/next/prev/Last/Seek), next/prev agree on re-positioning and on the exhausted position, every loop driven by a cursor advance has an exit depending on the key returned, lower-bound search predicates and branch step-back tabulated; every return of a value taken from a raw cursor step (First/Last/Next/Prev/Seek, Bucket.Get) is guarded by a bucket-bit test of that same step's flags (nested buckets reported with a nil value)", "4 C05"),
- "C07": ("free-before-drop for node page ids, bucket roots and node-cache removals, no mutation of a bucket from inside its own ForEach/ForEachBucket callback (every call site in the module), freelist pointer redefined and old freelist page freed before the new one is allocated, Bucket.free frees pages and nodes and DeleteBucket orders nested-delete < free < key removal, physical rollback gives pages back, aborts undo frees, inline conversion frees the old pages; page capacity: page counts requested for nodes and the free list cover ceil(size/pageSize) of the very object written, buffers are count*pageSize, node.size/sizeLessThan/serialiser agree on the terms, Commit grows the file to the high-water mark and grow truncates to at least the request (tabulated); a root leaf holding a nested-bucket element is never inlineable (inlineable() tabulated); mmapSize / db.mmap / allocate-remap tabulated (the mapping covers every page up to the high-water mark)", "4 C07, 8.2"),
+ "C07": ("free-before-drop for node page ids, bucket roots and node-cache removals, no mutation of a bucket from inside its own ForEach/ForEachBucket callback (every call site in the module), freelist pointer redefined and old freelist page freed before the new one is allocated, Bucket.free frees pages and nodes and DeleteBucket orders nested-delete < free < key removal, physical rollback gives pages back, aborts undo frees, inline conversion frees the old pages; page capacity: page counts requested for nodes and the free list cover ceil(size/pageSize) of the very object written, buffers are count*pageSize, node.size/sizeLessThan/serialiser agree on the terms, Commit grows the file to the high-water mark and grow truncates to at least the request (tabulated); a root leaf holding a nested-bucket element is never inlineable (inlineable() tabulated); mmapSize / db.mmap / allocate-remap tabulated (the mapping covers every page up to the high-water mark); free-set entry chain and key-order predicates re-evaluated", "4 C07, 8.2"),
  "C16": ("fail-fast inside the batch's Update closure with the failing index recorded, queued functions only ever run inside safelyCall's recover barrier, only the failing caller gets trySolo / is removed / never sees the sentinel, buffered result channel and batch.run referenced only through its sync.Once; every batch created is armed with the trigger timer before the mutex is released", "4 C16"),
  "C19": ("each corruption class has a detector wired to the error channel (identified by the data tested, with truth tables for the five map/type detectors and the three key-order comparisons), child subtrees checked against their separator bounds, panic becomes a reported error and the channel is always closed, the walk reaches no mutator, CLI counts every error and a positive count reaches os.Exit(1); the page-type predicates hold for exactly one flags word each (tabulated); the lazily loaded free list is published only through freelistLoad.Do (assigned only in the Once body, not touched by loadFreelist before Do returned, used by tx.check only after loadFreelist())", "4 C19"),
- "C06": ("write offsets derive only from ids of pages in tx.pages (filled only by tx.allocate from db.allocate: freelist.Allocate or the high-water mark), free-set entry chain (Free makes pages pending only; mergeSpans/Init only from the release / reload paths) under VTA and CHA, frees and rollbacks under the writer's own txid, free-before-allocate in spill, meta slot, file-writer allow-list, every page handed out is registered with its run length, aborts undo frees", "4 C06, 8.2"),
- "C08": ("every error exit of Commit passes the physical rollback (directly or through commitFreelist's summary), shape of rollback (freelist.Rollback, reload from the committed state chosen by hasSyncedFreelist, close), db.allocate has no error exit after an effect and raises the size-limit error first, no I/O error dropped, no rollback after the meta write was issued (one known finding, demonstrated at runtime in findings/F5)", "4 C08"),
+ "C06": ("write offsets derive only from ids of pages in tx.pages (filled only by tx.allocate from db.allocate: freelist.Allocate or the high-water mark), free-set entry chain (Free makes pages pending only; mergeSpans/Init only from the release / reload paths) under VTA and CHA, frees and rollbacks under the writer's own txid, free-before-allocate in spill, meta slot, file-writer allow-list, every page handed out is registered with its run length, aborts undo frees; physical rollback shape re-evaluated", "4 C06, 8.2"),
+ "C08": ("every error exit of Commit passes the physical rollback (directly or through commitFreelist's summary), shape of rollback (freelist.Rollback, reload from the committed state chosen by hasSyncedFreelist, close), db.allocate has no error exit after an effect and raises the size-limit error first, no I/O error dropped, no rollback after the meta write was issued (one known finding, demonstrated at runtime in findings/F5); writer-lock pairing re-evaluated (the next writer never blocks after a failed commit), free-set entry chain re-evaluated (readers open during the failure keep their snapshot)", "4 C08"),
  "C17": ("lock request per GOOS tabulated over exclusive/outcome (exclusive iff read-write, non-blocking, retry until timeout), lock-before-content and flag selection in Open, read-only refuses writers before any state change and never reaches a file writer, read-only mapping protection constants on every GOOS, close always closes the descriptor and Close takes all three locks, CLI inspection commands open ReadOnly", "4 C17"),
- "C01": ("write-ahead shape of commit on every path (pages, barrier, meta, barrier), file-writer allow-list, I/O error discipline, meta slot = txid%2 with checksum after the last store, db.meta() decision table; plus (re-evaluated) the dirty-page cache is filled only by tx.allocate with allocator-provided ids (no page the durable meta references is rewritten before the new meta is durable)", "4 C01, 8.2"),
+ "C01": ("write-ahead shape of commit on every path (pages, barrier, meta, barrier), file-writer allow-list, I/O error discipline, meta slot = txid%2 with checksum after the last store, db.meta() decision table; plus (re-evaluated) the dirty-page cache is filled only by tx.allocate with allocator-provided ids (no page the durable meta references is rewritten before the new meta is durable); free-set entry chain re-evaluated (the previous meta's pages are not recycled by the commit in flight)", "4 C01, 8.2"),
 }
 
 NOT_YET = {}  # filled below for properties whose rules are not implemented yet
